@@ -29,7 +29,7 @@ def run_check(mod, tier, seed, replay=None):
         print(b["log"][-3000:])
     try:
         t = mod.tie(tier, seed, replay)
-    except lib.Infra as e:
+    except Exception as e:  # noqa: BLE001 - any harness failure is reported, never swallowed
         print("INFRA: %s" % e)
         traceback.print_exc()
         t = dict(evaluations=0, distinct_nontrivial=0, rule="tie did not run", samples=[], distribution={},
